@@ -27,7 +27,7 @@ def check(ctx):
     ctx.explanation = EXPLANATION
     ctx.trusted = ["zeroize: <IterMut<'_, Z> as Zeroize>::zeroize zeroizes every yielded element", "const-default: [T; 0]: ConstDefault; rustc requires every field in a struct expression"]
     ctx.assumptions = ["equality of T::DEFAULT and T::default() is a fact about the element type", "the zeroized value of an element is whatever T::zeroize leaves"]
-    cfgs = ["F1"] if ctx.tier == "quick" else ["F1", "F2"]
+    cfgs = ["F1", "F1N"] if ctx.tier == "quick" else ["F1", "F1N", "F2", "F2N"]
     ctx.need(*cfgs)
     for cfg in cfgs:
         db = ctx.db(cfg)
@@ -50,6 +50,12 @@ def check(ctx):
                 else:
                     det = det + " | as a partition: " + det2
             ctx.ob("C19.Z", K_Z, ok, det, at=b["at"], cfg=cfg)
+        # ---- "and equals Default::default() where both exist": the run-time default is N copies of T::default() as well - Default is
+        # generate(|_| T::default()) (or the collecting equivalent) and generate stores f(i) in slot i for every i (C08's rules, run here) - so the
+        # two agree exactly when the element's two defaults do (an assumption about the element type)
+        from . import c08
+        c08.check_default_clone(ctx, cfg, rule="C19.E", only_default=True)
+        c08.check_generate(ctx, cfg, c08.GS + "generate", False, rule="C19.E")
         # ---- const default
         c01.check_structure(ctx, cfg)
         # the node impls are found through the storage types the two recursive ArrayLength impls name (C01.S decides that these, as instantiated, are two
